@@ -93,8 +93,8 @@ def run(tier, seed):
             ck.sample(dict(source=r["src"], product_states=r["states"], shapes=r["shapes"][:6]))
         for p in r["problems"]:
             it = items[idx]
-            if p["kind"] == "mismatch" and c01.early_plain_shape(it["ast"]):
-                continue   # C01's known finding KF13; not an EOF matter
+            if p["kind"] == "mismatch" and any(pred(it["ast"]) for _, pred in c01.KNOWN_SHAPES):
+                continue   # C01's known findings; not an EOF matter
             sig = "C17:%s:%s:%s" % (p["kind"], p["what"].split("|")[0][:40].strip(), sha(r["src"])[:10])
             ck.violation(sig, "%s %s | input %s | %s" % (p["what"], p["argv"], p["path"], r["src"].replace("\n", " ")),
                          dict(src=r["src"], argv=p["argv"], path=p["path"], ast=repr(it["ast"]), kind=p["kind"]))
